@@ -226,6 +226,17 @@ func checkC06(r *run, c *PktzCase) (CaseInfo, error) {
 			absID = int(op.N)
 			seenOther = true
 			ci.class("abs-send-time-id-changed-mid-stream")
+		case "empty":
+			// an empty (or nil) payload: no packets, and the call leaves no trace on later ones
+			var none []byte
+			if op.N == 1 {
+				none = []byte{}
+			}
+			if pkts := pk.Packetize(none, op.Samples); len(pkts) != 0 {
+				return ci, failf("op %d: Packetize of an empty payload returned %d packets", i, len(pkts))
+			}
+			seenOther = true
+			ci.class("empty-payload-call")
 		case "skip":
 			if op.Steer != 0 && haveTS {
 				op.N = uint32(op.Steer-2) - (t0 + acc)
@@ -415,8 +426,13 @@ func genPktzCase(t *rapid.T) *PktzCase {
 		if i > 0 && rapid.IntRange(0, 11).Draw(t, "reenable") == 0 {
 			kind = "enable"
 		}
+		if rapid.IntRange(0, 11).Draw(t, "emptycall") == 0 {
+			kind = "empty"
+		}
 		op := PktzOp{Kind: kind}
 		switch kind {
+		case "empty":
+			op.N, op.Samples = uint32(rapid.IntRange(0, 1).Draw(t, "emptykind")), 0 // zero samples: whether an empty call counts its samples is left open by the property
 		case "enable":
 			op.N = uint32(biased(t, "newabsid", 0, 255, 0, 1, 14, 15, 16, 255))
 		case "skip":
@@ -463,7 +479,7 @@ func genPktzCase(t *rapid.T) *PktzCase {
 	return c
 }
 
-const ruleC06 = "rapid draws a packetizer configuration (MTU 64-65535 biased to 64,65,100,267,1200,1500; PT; SSRC; fixed sequencer with start biased to 65530-65535/0, random sequencer, or a Sequencer implemented by the harness (every number it hands out must appear on a packet); abs-send-time off or id 1-255 (one-byte form up to 14, two-byte form above; one operation in twelve calls EnableAbsSendTime again with another id or 0) with an injected clock (instants uniform in 1970-2036 or a small step after the previous call's, in the default or a fixed-offset zone; one case in eight injects no clock and brackets the value between the instants read right before and after the call); payloader in {G711,G722,Opus,VP8+-pid,VP9 flexible/non-flexible,H264+-STAP-A,H265+-DONL,AV1, scripted stub}) and 1-10 operations Packetize(non-empty payload, samples)/SkipSamples/GeneratePadding(0-5); one op in six is 'steered': its sample count is computed at run time from the learned first timestamp so that the next timestamp is exactly 0xFFFFFFFF, 0 or 1. Oracle: spy on the payloader (fragments unchanged and in order), sequence/timestamp model (learned first values), fixed fields, marker, abs-send-time = exact 6.18 value of the injected instant, MarshalSize<=MTU, marshal/parse equality, padding packets valid padding-only RTP; every packet returned earlier still serialises to the same bytes after all later calls. Non-trivial = >=2 productive Packetize calls, one with >=2 packets, with a Skip/Padding before one of them; distinct = FNV-64 of the JSON case"
+const ruleC06 = "rapid draws a packetizer configuration (MTU 64-65535 biased to 64,65,100,267,1200,1500; PT; SSRC; fixed sequencer with start biased to 65530-65535/0, random sequencer, or a Sequencer implemented by the harness (every number it hands out must appear on a packet); abs-send-time off or id 1-255 (one-byte form up to 14, two-byte form above; one operation in twelve calls EnableAbsSendTime again with another id or 0) with an injected clock (instants uniform in 1970-2036 or a small step after the previous call's, in the default or a fixed-offset zone; one case in eight injects no clock and brackets the value between the instants read right before and after the call); payloader in {G711,G722,Opus,VP8+-pid,VP9 flexible/non-flexible,H264+-STAP-A,H265+-DONL,AV1, scripted stub}) and 1-10 operations Packetize(non-empty payload, samples)/Packetize(nil or empty payload: no packets, no trace)/SkipSamples/GeneratePadding(0-5); one op in six is 'steered': its sample count is computed at run time from the learned first timestamp so that the next timestamp is exactly 0xFFFFFFFF, 0 or 1. Oracle: spy on the payloader (fragments unchanged and in order), sequence/timestamp model (learned first values), fixed fields, marker, abs-send-time = exact 6.18 value of the injected instant, MarshalSize<=MTU, marshal/parse equality, padding packets valid padding-only RTP; every packet returned earlier still serialises to the same bytes after all later calls. Non-trivial = >=2 productive Packetize calls, one with >=2 packets, with a Skip/Padding before one of them; distinct = FNV-64 of the JSON case"
 
 func TestC06(t *testing.T) {
 	r := begin(t, "C06", "exploration", ruleC06)
